@@ -52,6 +52,19 @@ def reports(b):
         attempt("get_weights", lambda: res.get_weights())
         attempt("get_security_weights", lambda: res.get_security_weights())
         attempt("get_transactions", lambda: res.get_transactions())
+    if bool(b.strategy.fixed_income):
+        # the renormalised fixed-income report, normalising value given as a number, a series, a dict
+        import numpy as np
+
+        def finite(r):
+            v = r.prices.iloc[:, 0].values
+            if not np.all(np.isfinite(v)):
+                raise ValueError("non-finite renormalised prices")
+            return r
+
+        attempt("RenormalizedFixedIncomeResult(number)", lambda: finite(bt.backtest.RenormalizedFixedIncomeResult(64.0, b)))
+        attempt("RenormalizedFixedIncomeResult(series)", lambda: finite(bt.backtest.RenormalizedFixedIncomeResult(pd.Series(64.0, index=b.strategy.values.index), b)))
+        attempt("RenormalizedFixedIncomeResult(dict)", lambda: finite(bt.backtest.RenormalizedFixedIncomeResult({b.name: 64.0}, b)))
     attempt("weights", lambda: b.weights)
     attempt("security_weights", lambda: b.security_weights)
     attempt("positions", lambda: b.positions)
@@ -347,7 +360,7 @@ def run(ctx):
             fam.append({"tree": tree, "stack": st, "data": "d12", "alpha": "exact", "integer": tree != "flat_eager", "capital": 1e6, "rng": 0, "fee": None, "spread": 0.5, "spread_cols": ["a", "d"]})
     for g in ("daily", "weekly"):
         fam.append({"tree": "fi_hedge", "stack": {"gate": g}, "fi_weights": {"a": 0.5, "b": 0.5}, "idle_child": True, "data": "d12", "alpha": "exact", "late": False, "integer": False, "capital": 0.0, "rng": 0, "fee": None, "spread": None})
-        fam.append({"tree": "fi_hedge", "stack": {"gate": g}, "fi_weights": {"a": 0.75, "b": -0.25}, "data": "d12", "alpha": "exact", "late": False, "integer": False, "capital": 0.0, "rng": 0, "fee": None, "spread": None})
+        fam.append({"tree": "fi_hedge", "stack": {"gate": g}, "fi_weights": {"a": 0.75, "b": -0.25}, "bt_name": "run_A", "data": "d12", "alpha": "exact", "late": False, "integer": False, "capital": 0.0, "rng": 0, "fee": None, "spread": None})
     kinds = ["py", "cy"]
     ctx.bounds = {"runs": len(fam), "builds": kinds}
     for kind in kinds:
